@@ -87,6 +87,17 @@ func honestPeer(r *simrt.Rand, T gen.Layout, name string, np int) PeerSpec {
 	return PeerSpec{Name: name, B: b, Mode: "dial", At: r.Dur(0, 2*time.Second), Redial: r.Dur(5*time.Second, 40*time.Second), Honest: true}
 }
 
+// manyFilesLayout: hundreds of tiny files, so that the info dictionary does not fit one
+// 16 KiB ut_metadata piece while the content stays small.
+func manyFilesLayout(r *simrt.Rand) gen.Layout {
+	l := gen.Layout{Name: fmt.Sprintf("many%d", r.Intn(100000)), PieceLen: 16384, DataSeed: r.Uint64()}
+	n := r.Range(450, 900)
+	for i := 0; i < n; i++ {
+		l.Files = append(l.Files, gen.FileSpec{Path: []string{fmt.Sprintf("d%02d", i%37), fmt.Sprintf("file-%04d.bin", i)}, Length: int64(r.Range(1, 120))})
+	}
+	return l
+}
+
 func numPiecesOf(l gen.Layout) int {
 	var tot int64
 	for _, f := range l.Files {
@@ -190,6 +201,7 @@ func init() {
 				}
 			}
 			b.Have = have
+			stays := false
 			switch r.Intn(10) {
 			case 0:
 				b.CorruptP = r.Float() * 0.3
@@ -207,10 +219,13 @@ func init() {
 				b.OutOfRangeP = 0.1
 			case 6:
 				b.Snub = true
+				stays = r.Chance(0.5)
 			case 7:
 				b.SnubAfter = r.Range(1, 20)
+				stays = r.Chance(0.5)
 			case 8:
 				b.ChokeFlapEvery = r.Dur(200*time.Millisecond, 5*time.Second)
+				stays = r.Chance(0.5)
 			case 9:
 				b.DisconnectAfterBlocks = r.Range(1, 30)
 			}
@@ -228,7 +243,7 @@ func init() {
 			if r.Chance(0.15) {
 				b.LieHave = []int{r.Intn(np)}
 			}
-			ps := PeerSpec{Name: fmt.Sprintf("b%d", i), B: b, Mode: simrt.Pick(r, []string{"dial", "listen"}), At: r.Dur(0, tp.FaultsStop/2), Via: "manual"}
+			ps := PeerSpec{Name: fmt.Sprintf("b%d", i), B: b, Mode: simrt.Pick(r, []string{"dial", "listen"}), At: r.Dur(0, tp.FaultsStop/2), Via: "manual", Stays: stays && !b.NeverUnchoke && b.RejectP == 0 && len(b.LieHave) == 0}
 			if ps.Mode == "dial" && r.Chance(0.5) {
 				ps.Redial = r.Dur(1*time.Second, 10*time.Second)
 			}
@@ -264,6 +279,27 @@ func init() {
 			tp.Steps = append(tp.Steps, Step{At: at, Kind: "partition", Arg: "h0", Dur: min(r.Dur(time.Second, 30*time.Second), tp.FaultsStop-at)})
 		}
 		tp.Magnet = len(tp.Webseeds) == 0 && r.Chance(0.25)
+		if !tp.Magnet && r.Chance(0.15) {
+			// the only honest source is a web seed; the peers around it stall, choke and lie
+			tp.Peers = tp.Peers[1:]
+			hasHonestWS := false
+			for _, ws := range tp.Webseeds {
+				hasHonestWS = hasHonestWS || ws.Honest
+			}
+			if !hasHonestWS {
+				tp.Webseeds = append(tp.Webseeds, WebseedSpec{Name: "wh", Mode: "honest", Honest: true})
+			}
+			for i := range tp.Webseeds {
+				if tp.Webseeds[i].Honest {
+					tp.Webseeds[i].DelayMax = simrt.Pick(r, []time.Duration{0, 500 * time.Millisecond, 4 * time.Second})
+				}
+			}
+			for i := range tp.Steps {
+				if tp.Steps[i].Kind == "partition" {
+					tp.Steps[i].Kind = "announce" // the partition step names h0
+				}
+			}
+		}
 		if r.Chance(0.2) { // transient disk write errors (ENOSPC/EIO) while faults flow
 			for k := 0; k < r.Range(1, 2); k++ {
 				tp.WriteErrAt = append(tp.WriteErrAt, r.Range(1, 2*np+2))
